@@ -583,12 +583,16 @@ def _check_c14(v, case, add, st):
         if located:
             add("C14", "original_exception_not_wrapped_although_location_known", exc=repr(e))
     elif isinstance(e, TawaziBaseException) and isinstance(cause, probes.Injected):
-        nid = cause.args[0]
+        nid = cause.node
         msg = str(e)
         if nid not in msg:
             add("C14", "exception_does_not_name_failing_node", msg=msg[:300], node=nid)
-        if "<prog>" not in msg and "<%s>" % v.spec["name"] not in msg:
-            add("C14", "exception_does_not_name_call_location", msg=msg[:300])
+        if nid in v.idx:
+            # one call site per source line: site i is written on line i + 2 of "<name>"
+            loc = "<%s>:%d" % (v.spec["name"], v.idx[nid] + 2)
+            k = msg.find(loc)
+            if k < 0 or msg[k + len(loc): k + len(loc) + 1].isdigit():
+                add("C14", "exception_does_not_name_call_location", msg=msg[:300], expected=loc)
         if nid not in faults:
             add("C14", "cause_is_not_the_injected_failure", node=nid)
     else:
